@@ -6,7 +6,7 @@
    algorithm, .changes file lines).  A changed or dropped tag makes the corresponding lemma fail to compile. *)
 From Coq Require Import List Ascii String Bool Arith NArith ZArith Lia.
 Require Import SchemaDefs Schema_gen.
-Require GS R2 R2u L10 L12 L13 ACC ACC2 D3 C9G CX CX2 CX3 C10E.
+Require GS R2 R2u L10 L12 L13 ACC ACC2 PATH D3 C9G CX CX2 CX3 C10E.
 Import ListNotations.
 
 Lemma C10_dsc_schema_ok : schema_ok dsc_schema dsc_table = true.
@@ -139,4 +139,15 @@ Theorem C10_dsc_of_changes : forall names,
   (forall n, ACC2.dsc_of_changes names = Some n -> In n names /\ GS.has_suffix (GS.s ".dsc") n = true) /\
   (ACC2.dsc_of_changes names = None -> forall n, In n names -> GS.has_suffix (GS.s ".dsc") n = false).
 Proof. exact (fun names => conj (ACC2.dsc_of_changes_some names) (ACC2.dsc_of_changes_none names)). Qed.
+(* AbsFiles: every listed name joined to the directory of the control file, order and the other columns kept - with the
+   path model PATH.join2 (run against path.Join by the tie) in the place of the former oracle: a plain name becomes
+   <directory>/<name>.  ByHashPath of an index file <dir>/<name> is <dir>/by-hash/<algorithm>/<hash>. *)
+Theorem C10_abs_files : forall base cs files, PATH.clean_abs base cs -> cs <> [] ->
+  Forall (fun e => PATH.plain (fst e) = true) files ->
+  ACC.abs_files PATH.join2 base files = map (fun e => (base ++ PATH.slash :: fst e, snd e)) files.
+Proof. exact ACC2.abs_files_plain. Qed.
+Theorem C10_by_hash_path : forall d cs n byhash hash, PATH.clean_abs d cs -> cs <> [] -> PATH.plain n = true ->
+  ACC2.by_hash_path PATH.dir byhash hash (d ++ PATH.slash :: n) = d ++ GS.s "/by-hash/" ++ byhash ++ GS.s "/" ++ hash.
+Proof. exact ACC2.by_hash_path_of_entry. Qed.
+Print Assumptions C10_abs_files.
 Print Assumptions C10_ondemand_dependency_field.
